@@ -128,6 +128,18 @@ pub const ITOP_NEXT_BACK: u8 = 1;
 pub const ITOP_LEN: u8 = 2;
 pub const ITOP_HINT: u8 = 3;
 pub const ITOP_CLONE: u8 = 4; // clone, advance the clone once from the front, report, drop the clone
+// provided Iterator methods a library may override (resolved script byte = op | k << 4)
+pub const ITOP_NTH: u8 = 5; // nth(k)
+pub const ITOP_NTH_BACK: u8 = 6; // nth_back(k)
+pub const ITOP_REST: u8 = 7; // on a clone: count() and last(); the original is unaffected
+/// raw script byte -> (op, k): bytes below 200 are the five basic ops, 200.. the provided methods
+pub fn itop_decode(b: u8) -> (u8, usize) {
+    if b < 200 {
+        (b % 5, 0)
+    } else {
+        (5 + (b - 200) % 3, (((b - 200) / 3) % 8) as usize)
+    }
+}
 
 // ---- Cap kinds -------------------------------------------------------------------------
 pub const CAP_RESERVE: u8 = 0;
